@@ -90,6 +90,10 @@ def decode_params(body: bytes) -> list[tuple[int, bytes]]:
     pos = 0
     while pos <= len(body) - 4:
         param_type, param_length = unpack_from("!HH", body, pos)
+        if param_length < 4:
+            raise ValueError(
+                f"SCTP parameter has an invalid length of {param_length} bytes"
+            )
         params.append((param_type, body[pos + 4 : pos + param_length]))
         pos += param_length + padl(param_length)
     return params
